@@ -200,5 +200,6 @@ LIMITATIONS = {
     "r-process-r7-R4": "the response buffer of process wrapped in a private ResponseBuffer<N> that truncates back to the last flush on a failed write: the rules identify the response buffer by its type and its uses",
     "r-run-r7-R1": "run_blocking polls the future of run with a no-op waker inside an `unsafe` Pin::new_unchecked block: user-written unsafe code is outside the panic-edge universe (C05 fails closed) and a future that is polled by hand is not `awaited in place`",
     "r-run-r7-R3": "commands whose handler returns a value are given a discarding writer (NoResponse): a Write impl that by design does not append what it is given, against the writer rule of C04",
+    "r-parser-leaves-r8-R2": "the length field of a block decoded by a private block_length() - try_fold over the digit bytes with checked_mul/checked_add on `byte - b'0'` - and the payload cut off by split_at_checked(..).ok_or(Incomplete): the same open-coded digit loop as r6-R1 (its `byte - b'0'` is an undischarged panic edge for C05, the block's value and remainder are not the two halves the C08/C12 rules recognise)",
     "r-process-r6-R3": "process skips run() for a line that consists of white space only (`data[..len-1].iter().all(is_whitespace)`): showing that run would have been a no-op on such a line is a fact about the parser that the buffer-discipline rules do not have (they require one run per terminator)",
 }
